@@ -867,12 +867,12 @@ impl KotoVm {
                         };
 
                         // The error may have been thrown while the register stack was being
-                        // prepared for a call (e.g. with too few arguments), so ensure that the
-                        // catching frame still has its required number of registers.
-                        if self.registers.len() < self.min_frame_registers {
-                            self.registers
-                                .resize(self.min_frame_registers, KValue::Null);
-                        }
+                        // prepared for a call (e.g. with too few arguments), or while a call made
+                        // by an instruction (e.g. an overridden operator) was in progress, so
+                        // reset the register stack to the registers required by the catching
+                        // frame.
+                        self.registers
+                            .resize(self.min_frame_registers, KValue::Null);
 
                         self.set_register(recover_register, catch_value);
                         self.set_ip(ip);
